@@ -301,7 +301,8 @@ def k_unchecked(recv, which, mutable):
         return f"(and (= {a} (* {d['row']} {d['S']})) (= {b} (+ {a} {d['C']})) {no_ub(events)})"
 
     return Kernel(f"unchecked_{which}_{recv}{'_mut' if mutable else ''}", "C02", find, build, post,
-                  f"{suffix.strip(':')} on {recv}: for an in-range argument it denotes exactly offset row*stride(+col), inside the buffer")
+                  f"{suffix.strip(':')} on {recv}: for an in-range argument it denotes exactly offset row*stride(+col), inside the buffer",
+                  replay=("b_unchecked", recv, which, mutable))
 
 
 # ---- C08 / C09 induction base: the iterators' constructors establish the cursor invariant ----------
